@@ -72,6 +72,13 @@ func replayCmd(args []string) *Result {
 		} else if out == "panic" {
 			res.mismatch("c01:panic", pm, json.RawMessage(b))
 		}
+	case "c11-doc":
+		o := observeTree(str("text"))
+		say("document:\n%s", str("text"))
+		say("scanned tree [%s]\nafter the MACRO/PASTE pass [%s] (%s)", o.ScanShape, o.ExpShape, o.ExpRes)
+		if o.ExpRes == "ok" && o.ExpShape != o.ScanShape {
+			res.mismatch("c11:paste-pass-renests", "the MACRO/PASTE pass re-nests the directives", json.RawMessage(b))
+		}
 	case "c06-hist":
 		// a history of builds sharing option values: re-run it here and compare the last step with a fresh process
 		var rec struct {
